@@ -184,6 +184,20 @@ func c02WalkU(s string, bs []c02Bound, n d2ast.Node, parent d2ast.Range, depth i
 	if _, ok := n.(*d2ast.Substitution); ok && nd.Known("C02-unterminated-substitution-range") {
 		known = en.byteOff == len(s) && !strings.Contains(s[st.byteOff:], "}")
 	}
+	if _, ok := n.(*d2ast.Array); ok {
+		if nd.Known("C02-array-range-includes-lookahead") {
+			// recorded finding: the end of an array is taken from the reader position,
+			// which includes whatever was looked ahead after the closing bracket; only
+			// the start of an array is checked while the finding is open
+			known = true
+			nd.Assert(parent.Start.Byte <= r.Start.Byte && r.Start.Byte <= parent.End.Byte, "array starts inside its parent's range")
+			if r.End.Byte > parent.End.Byte {
+				r.End = parent.End
+			}
+		} else if en.byteOff > st.byteOff && strings.Contains(s[st.byteOff:en.byteOff], "]") {
+			nd.Assert(s[en.byteOff-1] == ']', "a terminated array ends with its closing bracket")
+		}
+	}
 	if !known {
 		nd.Assert(parent.Start.Byte <= r.Start.Byte && r.End.Byte <= parent.End.Byte, "node range nests inside its parent's range")
 	}
@@ -290,4 +304,12 @@ func VerifC02Alpha() {
 	n := nd.Choose("len", 1, nd.Param("NA", 4))
 	s := nd.From("s", n, ".:x \n{}-*$@'")
 	c02CheckU(s, nd.Bool("utf16"))
+}
+
+// VerifC02Arrays: arrays with 0..NH characters of content and what follows the
+// closing bracket, both position modes.
+func VerifC02Arrays() {
+	h := nd.From("h", nd.Choose("hl", 0, nd.Param("NH", 2)), "a;' 1\n[]#")
+	tail := []string{"", "\n", " \n", "\nb", " # c\n", "; b\n", "\n\n"}[nd.Choose("tail", 0, 6)]
+	c02CheckU("a: ["+h+"]"+tail, nd.Bool("utf16"))
 }
